@@ -252,4 +252,40 @@ pub mod _verif {
         any(target_arch = "x86", target_arch = "x86_64"),
     )))]
     fn sse42_value(_: &mut Bytes<'_>) -> bool { false }
+
+    /// Force the cached runtime backend id; returns false when this build has no runtime cache.
+    #[cfg(all(
+        httparse_simd,
+        not(any(httparse_simd_target_feature_sse42, httparse_simd_target_feature_avx2)),
+        any(target_arch = "x86", target_arch = "x86_64"),
+    ))]
+    pub fn set_runtime_feature(feature: u8) -> bool {
+        super::runtime::_verif_set_runtime_feature(feature);
+        true
+    }
+    #[cfg(not(all(
+        httparse_simd,
+        not(any(httparse_simd_target_feature_sse42, httparse_simd_target_feature_avx2)),
+        any(target_arch = "x86", target_arch = "x86_64"),
+    )))]
+    pub fn set_runtime_feature(_feature: u8) -> bool {
+        false
+    }
+    /// (cached id, detected id) of the runtime backend cache, if this build has one.
+    #[cfg(all(
+        httparse_simd,
+        not(any(httparse_simd_target_feature_sse42, httparse_simd_target_feature_avx2)),
+        any(target_arch = "x86", target_arch = "x86_64"),
+    ))]
+    pub fn runtime_feature() -> Option<(u8, u8)> {
+        Some(super::runtime::_verif_runtime_feature())
+    }
+    #[cfg(not(all(
+        httparse_simd,
+        not(any(httparse_simd_target_feature_sse42, httparse_simd_target_feature_avx2)),
+        any(target_arch = "x86", target_arch = "x86_64"),
+    )))]
+    pub fn runtime_feature() -> Option<(u8, u8)> {
+        None
+    }
 }
